@@ -17,6 +17,8 @@ import (
 	"sync/atomic"
 	"time"
 
+	"github.com/cocosip/go-dicom-codecs/verifhook"
+
 	"verif/internal/gen"
 )
 
@@ -150,7 +152,9 @@ func Run(p Property, opt Options) int {
 	fmt.Fprintf(os.Stderr, "[%s] tier=%s seed=%d cases=%d (incl. %d known-finding witnesses) workers=%d\n", id, opt.Tier, opt.Seed, len(cases), nw, opt.Workers)
 
 	var outs []caseOut
+	isolatedRun := false
 	if iso, ok := p.(Isolated); ok && iso.Isolated() {
+		isolatedRun = true
 		outs = runIsolated(p, cases, opt)
 	} else {
 		outs = runInProcess(p, cases, opt)
@@ -306,6 +310,17 @@ func Run(p Property, opt Options) int {
 	}
 	ev.violations = len(unknown)
 	ev.extra["violation_classes"] = classHist
+	// verifhook counters (library built with -tags verif): how often the rare coding paths
+	// named in DESIGN.md 2.6 were driven by this run's in-process cases.  Evidence only.
+	if verifhook.Enabled && !isolatedRun {
+		hk := map[string]uint64{}
+		for k, v := range verifhook.Snapshot() {
+			if v > 0 {
+				hk[k] = v
+			}
+		}
+		ev.extra["hook_events"] = hk
+	}
 	if fin, ok := p.(Finisher); ok {
 		fin.Finish(ev.feat, ev.extra)
 	}
